@@ -138,4 +138,126 @@ theorem generate_row_correct (m : Mode) (en : Endian) (format : Format) (addrSiz
     rw [trace_stickyFields h e.version ra prev row _ rfl rfl rfl rfl]
     rw [htr, reset_rowOf]
 
+/-! ## special opcodes are special opcodes; what `new` accepts -/
+
+/-- a special opcode pushed by `generate_row` comes from its final step -/
+theorem generateRow_special_mem (m : Mode) (e : Enc) (prev row : WRow) (is : List WInstr) (row' : WRow)
+    (h : generateRow m e prev row = .ok (is, row')) (op : Nat) (hm : WInstr.special op ∈ is) :
+    ∃ la oa ais, lineAdvance m prev.line row.line = .ok la ∧ advanceInstrs m e la oa = .ok ais ∧
+      WInstr.special op ∈ ais := by
+  unfold generateRow at h
+  cases hla : lineAdvance m prev.line row.line with
+  | ok la =>
+    cases hoa : opAdvance m e prev row with
+    | ok oa =>
+      cases hadv : advanceInstrs m e la oa with
+      | ok ais =>
+        simp only [hla, hoa, hadv, Out.bind_ok, Out.pure_eq, Out.ok.injEq, Prod.mk.injEq] at h
+        obtain ⟨h, _⟩ := h
+        subst h
+        simp only [List.mem_append] at hm
+        rcases hm with (hm | hm) | hm
+        · exact absurd hm (resetFieldInstrs_noSpecial row op)
+        · exact absurd hm (stickyFieldInstrs_noSpecial prev row op)
+        · exact ⟨la, oa, ais, rfl, hadv, hm⟩
+      | err x => simp [hla, hoa, hadv] at h
+      | panic w => simp [hla, hoa, hadv] at h
+      | diverge => simp [hla, hoa, hadv] at h
+    | err x => simp [hla, hoa] at h
+    | panic w => simp [hla, hoa] at h
+    | diverge => simp [hla, hoa] at h
+  | err x => simp [hla] at h
+  | panic w => simp [hla] at h
+  | diverge => simp [hla] at h
+
+/-- **Every emitted `Special(op)` has 13 ≤ op ≤ 255 — debug builds, no hypothesis at all.** For
+every `LineEncoding` whatsoever and every pair of rows: if `generate_row` returns (does not
+panic), each special opcode it pushed is a real special opcode (`OPCODE_BASE = 13 ≤ op ≤ 255`) —
+the two `debug_assert!`s turn everything else into a panic. -/
+theorem special_opcode_in_range_debug (e : Enc) (prev row : WRow) (is : List WInstr) (row' : WRow)
+    (h : generateRow .debug e prev row = .ok (is, row')) (op : Nat) (hm : WInstr.special op ∈ is) :
+    13 ≤ op ∧ op ≤ 255 := by
+  obtain ⟨la, oa, ais, _, hadv, hm'⟩ := generateRow_special_mem .debug e prev row is row' h op hm
+  obtain ⟨s, us, _, hF, _⟩ := advanceInstrs_special_mem .debug e la oa ais hadv op hm'
+  exact finalPart_debug_range e s us op hF
+
+/-- **Every emitted `Special(op)` has 13 ≤ op ≤ 255 — any build mode**, for every `LineEncoding`
+with `line_base ≤ 0 < line_base + line_range` and `line_range ≤ 243` (in particular every one
+that `LineProgram::new` accepts in a debug build, `new_accepts_iff`), every
+min_inst_len/max_ops, every pair of rows for which `generate_row` returns. -/
+theorem special_opcode_in_range (m : Mode) (e : Enc) (prev row : WRow) (is : List WInstr) (row' : WRow)
+    (h1 : -128 ≤ e.lineBase) (h2 : e.lineBase ≤ 0) (hr : 0 < e.lineBase + e.lineRange)
+    (hlr : e.lineRange ≤ 243)
+    (h : generateRow m e prev row = .ok (is, row')) (op : Nat) (hm : WInstr.special op ∈ is) :
+    13 ≤ op ∧ op ≤ 255 := by
+  obtain ⟨la, oa, ais, hla, hadv, hm'⟩ := generateRow_special_mem m e prev row is row' h op hm
+  exact advanceInstrs_special_range m e la oa ais h1 h2 hr hlr (lineAdvance_range m _ _ la hla) hadv op hm'
+
+/-- the `LineEncoding` of finding C13-2 -/
+def enc255 : Enc :=
+  { version := 4, minInstLen := 1, maxOps := 1, defaultIsStmt := true, lineBase := -128, lineRange := 255 }
+
+/-- **Finding C13-2, pinned** (release builds; the full statement of `special_opcode_in_range`
+without `line_range ≤ 243` is FALSE): `line_base = −128`, `line_range = 255` passes
+`LineProgram::new` in a release build (`new_accepts_iff`), and a line advance of +120 is encoded
+as `Special(261 as u8 = 5)`, i.e. `DW_LNS_set_column`, which is not a special opcode. -/
+theorem special_opcode_counterexample :
+    newCheck .release enc255.lineBase enc255.lineRange = .ok () ∧
+    generateRow .release enc255 (WRow.initial enc255) { WRow.initial enc255 with line := 121 } =
+      .ok ([.special 5], { WRow.initial enc255 with line := 121 }) := by
+  decide
+
+/-- **What `LineProgram::new` accepts** (its two `assert!`s, with `line_range as i8`): in a debug
+build exactly `line_base ≤ 0 < line_base + line_range` **and `line_range ≤ 127`**; in a release
+build `line_range ≥ 128` also passes when `line_base + line_range ≤ 127` (the `i8` sum wraps).
+The documented contract is the first conjunct alone — finding C13-1: e.g. gcc's own
+`line_base = −10`, `line_range = 242` is refused. -/
+theorem new_accepts_iff (m : Mode) (lineBase : Int) (lineRange : Nat)
+    (hb : -128 ≤ lineBase ∧ lineBase ≤ 127) (hr : lineRange ≤ 255) :
+    newCheck m lineBase lineRange = .ok () ↔
+      (lineBase ≤ 0 ∧ 0 < lineBase + lineRange ∧
+        (lineRange ≤ 127 ∨ (m = .release ∧ lineBase + lineRange ≤ 127))) := by
+  unfold newCheck
+  by_cases h0 : lineBase ≤ 0
+  · rw [if_neg (by omega)]
+    simp only
+    have hw : wrapI8 (lineRange : Int) = if lineRange ≤ 127 then (lineRange : Int) else (lineRange : Int) - 256 := by
+      unfold wrapI8; split <;> omega
+    by_cases hs : lineRange ≤ 127
+    · rw [hw, if_pos hs]
+      have hin : -128 ≤ lineBase + (lineRange : Int) ∧ lineBase + (lineRange : Int) ≤ 127 := by omega
+      have hw2 : wrapI8 (lineBase + (lineRange : Int)) = lineBase + lineRange := by unfold wrapI8; omega
+      rw [if_neg (by simp [hin]), hw2]
+      by_cases hp : lineBase + (lineRange : Int) > 0
+      · rw [if_pos hp]; simp; omega
+      · rw [if_neg hp]; simp; omega
+    · rw [hw, if_neg hs]
+      cases m with
+      | debug =>
+        have : ¬ (-128 ≤ lineBase + ((lineRange : Int) - 256) ∧ lineBase + ((lineRange : Int) - 256) ≤ 127) ∨
+            ¬ (wrapI8 (lineBase + ((lineRange : Int) - 256)) > 0) := by
+          unfold wrapI8; omega
+        by_cases hin : -128 ≤ lineBase + ((lineRange : Int) - 256) ∧ lineBase + ((lineRange : Int) - 256) ≤ 127
+        · rw [if_neg (by simp [hin])]
+          have hp : ¬ wrapI8 (lineBase + ((lineRange : Int) - 256)) > 0 := by
+            rcases this with h | h
+            · exact absurd hin h
+            · exact h
+          rw [if_neg hp]; simp; omega
+        · rw [if_pos ⟨rfl, hin⟩]; simp; omega
+      | release =>
+        rw [if_neg (by simp)]
+        by_cases hp : wrapI8 (lineBase + ((lineRange : Int) - 256)) > 0
+        · rw [if_pos hp]
+          unfold wrapI8 at hp
+          simp; omega
+        · rw [if_neg hp]
+          unfold wrapI8 at hp
+          simp; omega
+  · rw [if_pos (by omega)]
+    simp; omega
+
+/-- **Finding C13-1, pinned**: gcc's line_base/line_range are refused in both build modes -/
+theorem new_rejects_gcc_encoding (m : Mode) : (newCheck m (-10) 242).isOk = false := by
+  cases m <;> decide
 end Gimli.Props.C13
